@@ -589,6 +589,11 @@ def start_items(tier):
         items.append(("NEAR", t, False, True))
     for t in F.binbin_terms(tier):
         items.append(("BINBIN", t, False, True))
+    for t in F.scale_terms(tier):
+        items.append(("SCALE", t, False, M.size(t) <= 8))
+    for t in F.twice_terms(tier):
+        items.append(("TWICE", t, False, M.size(t) <= 8))
+        items.append(("TWICE-DAG", t, True, False))
     for lab, t in F.chain_terms(tier):
         n = M.size(t)
         items.append(("CHAIN:" + lab, t, False, n <= (21 if tier == "thorough" else 9)))
